@@ -171,17 +171,40 @@ Proof.
     rewrite IH. rewrite <- app_assoc. reflexivity.
 Qed.
 
+(* the generated loops are the accumulator fold *)
+Lemma fold_left_ext_eq {A E} (f g : A -> E -> A) : (forall a b, f a b = g a b) ->
+  forall l a, fold_left f l a = fold_left g l a.
+Proof. intros H. induction l as [|x l IH]; intros a; cbn [fold_left]; [reflexivity|]. rewrite H. apply IH. Qed.
+
+Lemma jit_run_client_gen_fold (i : Sh -> Cin -> S) sh bs cin :
+  jit_run_client_gen i step final sh bs cin
+  = let (st, rs) := fold_left (loop_body step) bs (i sh cin, []) in (final sh st, rs).
+Proof.
+  unfold jit_run_client_gen. cbv zeta.
+  rewrite (fold_left_ext_eq _ (loop_body step)) by (intros [st rs] b; unfold loop_body; destruct (step st b); reflexivity).
+  destruct (fold_left _ bs (i sh cin, [])). reflexivity.
+Qed.
+
+Lemma debug_run_client_gen_fold sh bs cin :
+  debug_run_client_gen init step final sh bs cin
+  = let (st, rs) := fold_left (loop_body step) bs (init sh cin, []) in (final sh st, rs).
+Proof.
+  unfold debug_run_client_gen. cbv zeta.
+  rewrite (fold_left_ext_eq _ (loop_body step)) by (intros [st rs] b; unfold loop_body; destruct (step st b); reflexivity).
+  destruct (fold_left _ bs (init sh cin, [])). reflexivity.
+Qed.
+
 Lemma debug_equals_seq sh (clients : list client) :
   debug_run init step final sh clients = map (run_seq init step final sh) clients.
 Proof.
-  unfold debug_run. apply map_ext. intros [[id bs] cin]. rewrite loop_body_fold. reflexivity.
+  unfold debug_run. apply map_ext. intros [[id bs] cin]. rewrite debug_run_client_gen_fold, loop_body_fold. reflexivity.
 Qed.
 
 Lemma jit_equals_seq (copy : S -> S) sh (clients : list client) : (forall s, copy s = s) ->
   jit_run init step final copy sh clients = map (run_seq init step final sh) clients.
 Proof.
   intros Hc. unfold jit_run. apply map_ext. intros [[id bs] cin]. unfold jit_run_client.
-  rewrite Hc, loop_body_fold. reflexivity.
+  rewrite jit_run_client_gen_fold, Hc, loop_body_fold. reflexivity.
 Qed.
 
 (* ---- one lane: masked steps are invisible ---- *)
@@ -359,6 +382,17 @@ Proof.
   rewrite nth_error_app2 in H by exact Hl. apply nth_error_In in H. apply repeat_spec in H. discriminate.
 Qed.
 
+Lemma run_block_unfold sh (blk : @block Id Cin B) :
+  run_block init step final zero_r sh blk
+  = let (p_state, p_res) := fold_left p_loop_body (blk_mb blk) (map (init sh) (blk_cin blk), []) in
+    (map (final sh) p_state, p_res).
+Proof.
+  unfold run_block, pmap_run_block_gen. cbv zeta.
+  rewrite (fold_left_ext_eq _ p_loop_body)
+    by (intros [st rs] [pb pm]; unfold C02_Model.p_loop_body; destruct (split (map3 lane_step st pb pm)); reflexivity).
+  destruct (fold_left _ (blk_mb blk) _). reflexivity.
+Qed.
+
 Lemma emit_block_flat sh (blk : @block Id Cin B) :
   Permutation (emit_block init step final zero_r sh blk)
     (let (p_out, p_res) := run_block init step final zero_r sh blk in
@@ -386,7 +420,7 @@ Proof.
     apply repeat_spec in Hc. subst c. pose proof (nbatches_nonneg c0). unfold nbatches at 1, padc. cbn. lia. }
   rewrite emit_block_flat.
   match goal with |- Permutation ?a ?b => assert (Heq : a = b); [|rewrite Heq; reflexivity] end.
-  unfold emit_flat, run_block. cbn [blk_id blk_mask blk_nb blk_mb blk_cin].
+  unfold emit_flat. rewrite run_block_unfold. cbn [blk_id blk_mask blk_nb blk_mb blk_cin].
   rewrite map_map.
   destruct (block_run_spec pb c0 _ (fun c => init sh (pc_cin c)) Epb Hmax') as [H1 H2].
   destruct (fold_left p_loop_body (masked_batches zero_b pb) (map (fun c => init sh (pc_cin c)) pb, []))
@@ -533,11 +567,20 @@ Proof.
 Qed.
 
 Lemma simple_keeps_stack o s : is_simple o = true -> ts_stack (fst (exec_op o s)) = ts_stack s.
-Proof. destruct o; cbn; try discriminate; try reflexivity. destruct (ts_cur s); reflexivity. Qed.
+Proof. destruct o; cbn; try discriminate; try reflexivity. Qed.
+
+(* the generated context-manager exit restores the saved value, also on exception *)
+Lemma ctx_exit_restores old cur : ctx_exit old cur = old /\ ctx_exit_on_exception = true.
+Proof. split; reflexivity. Qed.
+Lemma ctx_enter_saves b cur : ctx_enter b cur = (b, cur).
+Proof. reflexivity. Qed.
 
 Lemma exit_pops ex s old st : is_exit ex = true -> ts_stack s = old :: st ->
   fst (exec_op ex s) = mk_ts old st.
-Proof. intros He Hs. destruct ex; try discriminate; cbn; rewrite Hs; reflexivity. Qed.
+Proof.
+  intros He Hs. destruct (ctx_exit_restores old (ts_cur s)) as [H1 H2].
+  destruct ex; try discriminate; cbn [exec_op]; rewrite Hs; rewrite ?H2, H1; reflexivity.
+Qed.
 
 Lemma balanced_keeps_stack ops : balanced ops -> forall s, ts_stack (fst (run_thread s ops)) = ts_stack s.
 Proof.
@@ -872,3 +915,48 @@ Lemma model_anchored :
   api_binds_via_get = true /\ api_passes_step_results_through = true /\ api_drops_unit_step_results = true /\
   pmap_inputs_are_stacked_copies = true.
 Proof. repeat split; reflexivity. Qed.
+
+(* ------------------------------------------------------------------------ *)
+(* Wave 4: what the translated backend-choice code computes *)
+Lemma choice_code_translated :
+  (forall b cur, ctx_enter b cur = (b, cur)) /\
+  (forall old cur, ctx_exit old cur = old) /\
+  ctx_exit_on_exception = true /\
+  (forall d cur, choice_get d cur =
+     (Some (match cur with Some b => b | None => d end), Some (match cur with Some b => b | None => d end))).
+Proof. repeat split. intros d [b|]; reflexivity. Qed.
+
+(* a REAL client whose id is the value None (ClientId is any hashable; here Id := option Z)
+   is a client like any other: its triple is yielded with id Some None, which is different
+   from the id None of a padding client *)
+Lemma real_none_id_kept :
+  let init (sh cin : Z) := sh + cin in
+  let step (s b : Z) := (s + b, s) in
+  let final (sh s : Z) := s in
+  let zero (_ : Z) := 0 in
+  let clients : list (option Z * list Z * Z) := [(None, [1; 2], 10); (Some (-1), [], 20); (Some 7, [5], 30)] in
+  let out := pmap_run init step final zero zero zero 2 100 clients in
+  length out = 3%nat /\ In (Some None, 113, [110; 111]) out /\ In (Some (Some (-1)), 120, []) out /\
+  In (Some (Some 7), 135, [130]) out /\ ~ In None (map (fun r => fst (fst r)) out).
+Proof. vm_compute. intuition; try discriminate. Qed.
+
+(* the hypotheses of the theorems are satisfiable by non-trivial instances *)
+Lemma hypotheses_inhabited :
+  balanced [BSet (Some 2); BEnter (Some 3); BGet; BEnter None; BSet (Some 2); BExitExc; BEnterBad; BExit; BGet] /\
+  os_wf (mk_os 5 [3%nat; 1%nat]) /\ no_from_b [OFresh; OFromA 1%nat] /\
+  Forall (fun b => (b < os_next (mk_os 5 [3%nat]))%nat /\ alive (mk_os 5 [3%nat]) b = true)
+         (caller_bufs [0%nat] [([[1%nat]; [2%nat]], [4%nat])]).
+Proof.
+  repeat split.
+  - apply bal_simple; [reflexivity|].
+    apply (bal_with (Some 3) [BGet; BEnter None; BSet (Some 2); BExitExc; BEnterBad] BExit [BGet]).
+    + apply bal_simple; [reflexivity|].
+      apply (bal_with None [BSet (Some 2)] BExitExc [BEnterBad]); [|reflexivity|].
+      * apply bal_simple; [reflexivity|constructor].
+      * apply bal_simple; [reflexivity|constructor].
+    + reflexivity.
+    + apply bal_simple; [reflexivity|constructor].
+  - repeat constructor.
+  - repeat constructor.
+  - vm_compute. repeat constructor.
+Qed.
